@@ -28,7 +28,7 @@ RULE = ("fault placements: (site kind: raising watcher on set / on batch flush /
         "or inside an enclosing context, or during trigger, or with an Event key among the update keys; distinct = case hash.")
 ASSUMPTIONS = [
     "twin = new instance of a fresh identical class given the same values, watchers re-registered in the same order",
-    "callbacks do not assign; faults are disarmed while probing",
+    "callbacks do not assign, except that a callback scheduled to raise may first assign one other parameter (acyclic); faults are disarmed while probing",
     "which of the remaining watchers of the failing dispatch still run is not claimed (only the state afterwards)",
 ]
 SIZES = {"quick": 900, "thorough": 8000}
@@ -90,6 +90,13 @@ def _case(draw):
         if draw(st.integers(0, 3)) == 0:
             w["names"] = sorted(set(w["names"]) | {3})
     wfaults = draw(st.lists(st.tuples(st.integers(0, len(ws) - 1), st.integers(1, 3)), max_size=3))
+    for wid, _k in wfaults:
+        w = ws[wid]
+        lo = max(i for i in w["names"] if i <= 2) + 1 if any(i <= 2 for i in w["names"]) else 3
+        if lo <= 2 and draw(st.booleans()):
+            # a faulting callback may do its work (assign another parameter) before it fails
+            w["script"] = [[draw(st.integers(lo, 2)), draw(val_strategy(fam))]]
+            w["fault_after_script"] = True
     prog = draw(st.lists(_tree(fam), min_size=1, max_size=5))
     return {"fam": fam, "watchers": ws, "wfaults": [list(f) for f in wfaults], "prog": prog}
 
@@ -498,9 +505,9 @@ def execute(case):
         world.faults = saved_faults
         # a rejected constructor must not disturb the class either: a fresh instance behaves like the twin's
         if any(l == "fault:ctor" for l in state["labels"]):
-            w3 = _W(specs)
-            w3.targets[0] = world.W()
-            t3 = _W(specs)
+            w3 = _W([])
+            w3.targets[0] = world.W()          # a new instance of the class whose constructor call was rejected
+            t3 = _W([])                        # ... against an instance of a freshly made class (no user watchers on either)
             if not _same_transcript(_probe_light(w3), _probe_light(t3)):
                 res.fail("C05.ctor_fault_corrupts_class", f"{tag}: a new instance made after the rejected constructor call "
                                                           f"behaves differently from one of a fresh class")
